@@ -286,9 +286,23 @@ class Gen7(G.Gen):
             s['conf'] = self.conf()
         return s
 
+    def nid(self, p):
+        # ids as real data has them: mostly letter-initial, but also UUIDs, numbers and date-like ids that begin with
+        # a digit ("every element … carries its id", "the same … ids"): the statement does not restrict ids
+        self.n += 1
+        x = self.rng.random()
+        if x < 0.8:
+            return f'{p}{self.n}'
+        return self.rng.choice([f'{self.n}', f'{self.n}{p}', f'8e6a7c1e-{self.n:04d}-4b', f'2024_{p}{self.n}'])
+
     def region(self, depth=0, allow_tables=False):
         s = super().region(depth, False)
-        s.pop('text', None)
+        # a region's OWN text (its TextEquiv) is not among the things the statement says the re-parse reproduces for
+        # regions ("lines with or without text"), and the export does not write it; it is kept on some regions so
+        # that what the export does with such a region is exercised (nothing may appear that was not there), and is
+        # not compared on the region itself
+        if self.rng.random() >= 0.15:
+            s.pop('text', None)
         s.pop('ro', None)
         return s
 
